@@ -1,6 +1,9 @@
 package filesystem
 
 import (
+	"github.com/spf13/afero"
+	"bytes"
+	"archive/tar"
 	"context"
 	"os"
 	"time"
@@ -14,8 +17,13 @@ import (
 func vGenNamedTree(fs FS, root string, names []string) (count int) {
 	_ = fs.MkDir(root)
 	contents := []string{"", "x", "hello world"}
+	first := ""
 	for i := 0; i < 2; i++ {
 		n1 := names[verif.Choice("name1", len(names))]
+		// two different entries, not the same path written twice (a file written over a
+		// directory leaves the in-memory backend inconsistent: see the C06 findings)
+		verif.Assume(i == 0 || n1 != first)
+		first = n1
 		switch verif.Choice("k1", 3) {
 		case 1:
 			_ = fs.WriteFile(root+"/"+n1, []byte(contents[verif.Choice("content", len(contents))]), 0o644)
@@ -92,20 +100,61 @@ func VerifC07_RoundTrip() {
 }
 
 // VerifC07_ZipView: the read-only zip filesystem over an archive of the tree.
-func VerifC07_ZipView() {
+func VerifC07_ZipView() { vArchiveView(false) }
+
+// VerifC07_TarView: the same for the read-only tar filesystem (the archive is
+// written with the real archive/tar writer).
+func VerifC07_TarView() { vArchiveView(true) }
+
+// vBuildTar archives the tree below root: directories first, paths relative to root.
+func vBuildTar(inner afero.Fs, root string) []byte {
+	var buf bytes.Buffer
+	w := tar.NewWriter(&buf)
+	for _, n := range vSnapshot(inner, root) {
+		rel := n.path[len(root)+1:]
+		if n.dir {
+			_ = w.WriteHeader(&tar.Header{Typeflag: tar.TypeDir, Name: rel + "/", Mode: 0o755, ModTime: n.mtime})
+			continue
+		}
+		_ = w.WriteHeader(&tar.Header{Typeflag: tar.TypeReg, Name: rel, Mode: 0o644, Size: int64(len(n.data)), ModTime: n.mtime})
+		_, _ = w.Write([]byte(n.data))
+	}
+	_ = w.Close()
+	return buf.Bytes()
+}
+
+func vArchiveView(useTar bool) {
 	rec, fs := vNewFs()
 	vGenNamedTree(fs, "/src", []string{"a", "b"})
 	src := vSnapshot(rec.inner, "/src")
 	ctx := context.Background()
-	verif.Assert("zip_succeeds", fs.ZipWithContext(ctx, "/src", "/a.zip") == nil)
-	zfs, zfile, err := NewZipFileSystem(fs, "/a.zip", NoLimits())
+	var zfs ICloseableFS
+	var zfile File
+	var err error
+	if useTar {
+		verif.Assert("tar_written", fs.WriteFile("/a.tar", vBuildTar(rec.inner, "/src"), 0o644) == nil)
+		zfs, zfile, err = NewTarFileSystem(fs, "/a.tar", NoLimits())
+	} else {
+		verif.Assert("zip_succeeds", fs.ZipWithContext(ctx, "/src", "/a.zip") == nil)
+		zfs, zfile, err = NewZipFileSystem(fs, "/a.zip", NoLimits())
+	}
 	verif.Assert("view_opens", err == nil && zfs != nil && zfile != nil)
 	// same paths, kinds, sizes, contents
 	for _, n := range src {
 		rel := n.path[len("/src"):]
-		verif.Assert("view_exposes_every_entry", zfs.Exists(rel))
+		// the tar view answers "does not exist" for a directory that holds nothing
+		emptyDirInTar := false
+		if useTar && n.dir {
+			emptyDirInTar = true
+			for _, m := range src {
+				if len(m.path) > len(n.path)+1 && m.path[:len(n.path)+1] == n.path+"/" {
+					emptyDirInTar = false
+				}
+			}
+		}
+		verif.AssertKnown("view_exposes_every_entry", zfs.Exists(rel), "KF-C07-empty-directory-does-not-exist-in-tar-view", emptyDirInTar)
 		isDir, e := zfs.IsDir(rel)
-		verif.Assert("view_kinds", e == nil && isDir == n.dir)
+		verif.AssertKnown("view_kinds", e == nil && isDir == n.dir, "KF-C07-empty-directory-does-not-exist-in-tar-view", emptyDirInTar)
 		if !n.dir {
 			b, e := zfs.ReadFile(rel)
 			if n.data == "" {
